@@ -8,6 +8,7 @@ use std::sync::Arc;
 
 use dagrepo::Shape;
 use jj_lib::backend::CommitId;
+use jj_lib::object_id::ObjectId as _;
 use jj_lib::commit::Commit;
 use jj_lib::default_index::DefaultReadonlyIndex;
 use jj_lib::repo::ReadonlyRepo;
@@ -240,6 +241,41 @@ fn main() {
                 max_levels = max_levels.max(levels(&fresh).len());
                 let order = dagrepo::index_order(&fresh, &known(&commits));
                 snaps.push(snapshot(fresh.as_ref(), Some(&fresh), order, &mut rng, 6));
+                // the segment files of the final index, byte for byte
+                let mut files: Vec<String> = vec![];
+                {
+                    let order = dagrepo::index_order(&fresh, &known(&commits));
+                    let (g, _) = dagrepo::graph_of(fresh.as_ref(), &order);
+                    let idx: &DefaultReadonlyIndex = fresh.readonly_index().downcast_ref().unwrap();
+                    let stats = idx.stats();
+                    let seg_dir = test_repo.repo_path().join("index").join("segments");
+                    let mut start = 0usize;
+                    let mut parent_name = String::new();
+                    for level in &stats.commit_levels {
+                        let cnt = level.num_commits as usize;
+                        let bytes = std::fs::read(seg_dir.join(&level.name)).unwrap();
+                        let entries: Vec<String> = (start..start + cnt)
+                            .map(|p| {
+                                let c = fresh.store().get_commit(&order[p]).unwrap();
+                                format!(
+                                    "(mk_centry {} {} {}%N [{}])",
+                                    coq::bytes(order[p].as_bytes()),
+                                    coq::bytes(c.change_id().as_bytes()),
+                                    idx.generation_number(&order[p]).unwrap(),
+                                    g[p].iter().map(|q| format!("{q}%N")).collect::<Vec<_>>().join("; ")
+                                )
+                            })
+                            .collect();
+                        files.push(format!(
+                            "(mk_file {} [{}] {})",
+                            coq::bytes(parent_name.as_bytes()),
+                            entries.join("; "),
+                            coq::bytes(&bytes)
+                        ));
+                        parent_name = level.name.clone();
+                        start += cnt;
+                    }
+                }
                 if rng.chance(1, 3) {
                     reindexed = true;
                     let seg = test_repo.repo_path().join("index").join("segments");
@@ -248,17 +284,18 @@ fn main() {
                     let order = dagrepo::index_order(&re, &known(&commits));
                     snaps.push(snapshot(re.as_ref(), Some(&re), order, &mut rng, 6));
                 }
-                (snaps, level_obs, max_levels, concurrent, reindexed)
+                (snaps, level_obs, files, max_levels, concurrent, reindexed)
             });
             let (term, nontrivial, shape_s) = match res {
-                Some((snaps, level_obs, max_levels, concurrent, reindexed)) => {
+                Some((snaps, level_obs, files, max_levels, concurrent, reindexed)) => {
                     let n_max = snaps.iter().map(|s| s.n).max().unwrap_or(0);
                     let merges = snaps.iter().map(|s| s.merges).max().unwrap_or(0);
                     let nq: usize = snaps.iter().map(|s| s.queries).sum();
                     let term = format!(
-                        "(mk_case [{}] [{}] false)%nat",
+                        "(mk_case [{}] [{}] [{}] false)%nat",
                         snaps.iter().map(|s| s.term.clone()).collect::<Vec<_>>().join("; "),
-                        level_obs.join("; ")
+                        level_obs.join("; "),
+                        files.join("; ")
                     );
                     let shape_s = format!(
                         "n{} levels{} {}{}{}",
@@ -272,7 +309,7 @@ fn main() {
                 }
                 None => {
                     ctx.panicked();
-                    ("(mk_case [] [] true)".to_string(), false, "panic".to_string())
+                    ("(mk_case [] [] [] true)".to_string(), false, "panic".to_string())
                 }
             };
             ctx.emit(i, term, nontrivial, shape_s.trim());
